@@ -252,6 +252,15 @@ pub fn check(j: &Job, c: &Case, l: &mut Local) -> CaseResult {
     if s1.stripped.len() > max {
         return Err(mk("max_significant_digits", format!("output {:?} has {} significant digits, more than max_significant_digits = {}", show(&out), s1.stripped.len(), max)));
     }
+    // (1a) zero padding counts: with a digit limit, no more digits are written from the first significant one than the
+    // limit - apart from the integer zeros of positional notation and the mandatory ".0" ("9.9996" at 4 digits is
+    // "10.00", never "10.000")
+    if o.max_digits != 0 && s1.written.len() > max.max(s1.int_len + 1) {
+        return Err(mk(
+            "max_significant_digits",
+            format!("output {:?} has {} digits from the first significant digit (zero padding included), more than max_significant_digits = {}", show(&out), s1.written.len(), max),
+        ));
+    }
     // (2) value = default output rounded to max digits
     if s1.stripped != want {
         let f = |d: &[u8]| d.iter().map(|&x| digit_char(x) as char).collect::<String>();
@@ -277,12 +286,12 @@ pub fn check(j: &Job, c: &Case, l: &mut Local) -> CaseResult {
     if o.trim {
         l.class(if trimmed_as_integer { "trim:applied" } else { "trim:not-integral" });
     }
-    if info.has_point && o.trim && p1.frac.iter().all(|&d| d == 0) && !info.has_exp && o.min_digits as usize <= s1.int_len {
+    if info.has_point && o.trim && p1.frac.iter().all(|&d| d == 0) && !info.has_exp {
         return Err(mk("trim_floats", format!("output {:?} is integral but the '.0' was not trimmed", show(&out))));
     }
     // exponent notation (decimal writers): a one-digit mantissa loses its ".0" too, unless the format wants a
     // fraction in front of every exponent or more digits are asked for
-    if radix == 10 && info.has_point && o.trim && info.has_exp && p1.frac.iter().all(|&d| d == 0) && p1.int.len() == 1 && o.min_digits <= 1 && !(m.no_exponent_without_fraction && cfg!(feature = "format")) {
+    if info.has_point && o.trim && info.has_exp && p1.frac.iter().all(|&d| d == 0) && p1.int.len() == 1 && !(m.no_exponent_without_fraction && cfg!(feature = "format")) {
         return Err(mk("trim_floats", format!("output {:?} has an integral one-digit mantissa but the '.0' was not trimmed", show(&out))));
     }
     if !info.has_point && !o.trim {
@@ -400,7 +409,7 @@ fn value_strategy(k: FloatKind, radix: u32) -> BoxedStrategy<u64> {
 pub fn run(ctx: &Ctx, rep: &mut Report) {
     rep.rule = "cases: per compiled writer format (radix 10, every power-of-two and generic radix, mixed bases, and the \
         sign/notation flag variants incl. no/required exponent notation) and float type: finite values (structured bit patterns; \
-        short digit strings in the output radix incl. x.5-type ties, (r-1)(r-1).. carry patterns, leading fractional zeros) x \
+        short digit strings in the output radix incl. x.5-type ties, (r-1)(r-1).. carry patterns, leading fractional zeros; a fifth of the cases couple a (r-1)..(r-1)h value with max digits <= the run length and min in {0, max, below}, so that rounding carries into a new digit) x \
         generated options (max/min significant digits 1..64, breaks +-1..20, +-21..400, +-1000, Round/Truncate, trim, custom \
         decimal point / exponent characters). Oracle (metamorphic): the output is read with a strict reader using the configured \
         punctuation and compared with the default output of the same float rounded in exact digit arithmetic (half-even / \
@@ -424,10 +433,31 @@ pub fn run(ctx: &Ctx, rep: &mut Report) {
         |j| {
             let m = &cat().models[j.entry];
             let k = kind_of(j.ty);
-            (value_strategy(k, m.mantissa_radix()), wopts::strategy(m, false), any::<bool>()).prop_map(move |(mag, mut opts, neg)| {
+            let radix = m.mantissa_radix();
+            (value_strategy(k, radix), wopts::strategy(m, false), any::<bool>(), (any::<u8>(), 1usize..8, -12i32..20, any::<u8>(), any::<u8>())).prop_map(move |(mut mag, mut opts, neg, (sel, n, e, a, b))| {
                 // specials are C15's business: keep the strings configured
                 opts.nan = 0;
                 opts.inf = 0;
+                if sel < 56 {
+                    // coupled stream: n digits (r-1) followed by a high digit, rounded to at most n digits, so that the
+                    // rounding carries into a new leading digit (0.9996 -> 1.000, 99.97 -> 100.0); min is 0, max, or below
+                    let mut v = 0f64;
+                    let mut scale = 1f64 / radix as f64;
+                    for _ in 0..n {
+                        v += (radix - 1) as f64 * scale;
+                        scale /= radix as f64;
+                    }
+                    v += (radix / 2 + (a as u32 >> 5) % (radix - radix / 2)) as f64 * scale;
+                    let v = v * (radix as f64).powi(e);
+                    mag = (if k.p == 53 { v.to_bits() } else { (v as f32).to_bits() as u64 }).min(k.max_finite_bits()) & !k.sign_mask();
+                    opts.max_digits = 1 + (a as u32 & 31) % n as u32;
+                    opts.min_digits = match b % 3 {
+                        0 => 0,
+                        1 => opts.max_digits,
+                        _ => 1 + (b as u32 >> 2) % opts.max_digits,
+                    };
+                    opts.truncate = b >= 240;
+                }
                 Case { bits: if neg { mag | k.sign_mask() } else { mag }, opts }
             })
         },
